@@ -22,6 +22,11 @@ def proved_names(pr, info):
     return sorted(byid[i] for i in ids if i in byid)
 
 
+def per_version(pr):
+    m = re.search(r"=\s*\[([^\]]*?)\]\s*:\s*list nat", pr["log"], re.S)
+    return [int(x.strip().replace("%nat", "")) for x in m.group(1).replace("\n", " ").split(";") if x.strip()] if m else []
+
+
 def known_ob_tangent_flag(n, vn, names):
     """Oblivion streams: NiGeometryData::Sync clears bit 12 of dataFlags in place before writing it
     (Geometry.cpp:52-54); only that field, only for the Oblivion version triples"""
@@ -37,6 +42,11 @@ def run(tier, seed, replay=None):
     proved = proved_names(pr, info) if pr["ok"] else []
     base = json.load(open(os.path.join(vlib.ROOT, "baseline", "proved_obligations.json"))).get(PID, [])
     lost = sorted(set(base) - set(proved))
+    allb = json.load(open(os.path.join(vlib.ROOT, "baseline", "proved_obligations.json")))
+    base_pv, now_pv = allb.get("C02_per_version", []), (per_version(pr) if pr["ok"] else [])
+    pv_lost = [i for i, (b0, n0) in enumerate(zip(base_pv, now_pv)) if n0 < b0] if now_pv else list(range(len(base_pv)))
+    if pv_lost and not lost:
+        lost = ["(per-version count dropped for version index %s: %s -> %s)" % (pv_lost, base_pv, now_pv)]
     plain = vlib.build_oracle("plain")
     model = vlib.build_model_oracle()
     vers = be.QUICK_VERS if tier == "quick" else list(be.VERS)
@@ -147,13 +157,13 @@ def run(tier, seed, replay=None):
     if (not pr["ok"] or lost or hygiene) and not fails:
         rep.violation("write-idempotence obligation no longer discharged for: %s" % (",".join(lost[:10]) or ",".join(pr["failed"]) or ",".join(hygiene)),
                       {"broken": "obligations of coq/Properties/Properties_C02.v for " + ",".join(lost), "log": pr["log"][-1500:] if not pr["ok"] else ""}, found_input=False)
-    cov["obligations"] += len(base)
-    cov["discharged"] += len(set(base) & set(proved))
+    cov["obligations"] += len(base) + sum(base_pv)
+    cov["discharged"] += len(set(base) & set(proved)) + sum(min(a, b) for a, b in zip(base_pv, now_pv))
     cov.update({
         "per_type_obligations": {"baseline": len(base), "discharged_now": len(set(base) & set(proved)), "lost": lost,
                                  "newly_discharged_not_in_baseline": sorted(set(proved) - set(base))},
-        "unproved": ["write idempotence (put_idem: writing the written object again gives the same bytes) is NOT proved; it is checked on the model and on the implementation for every generated instance",
-                     "block types outside the round-trip baseline: " + ",".join(sorted(set(info["blocks"]) - set(proved))),
+        "per_version_obligations": {"baseline": base_pv, "now": now_pv},
+        "unproved": ["write idempotence is proved for the loop-free fragment only (C02_write_idem / wchk): block types whose Sync contains a loop (vectors, reference arrays) or a statement outside the fragment are checked on the model and on the implementation for every generated instance, not proved: " + ",".join(sorted(set(info["blocks"]) - set(proved))),
                      "the file-level pipeline (FinalizeData, Optimize, sort) is explored on the samples, not proved"],
         "evaluations": stats["block_instances"] + stats["sample_save3"],
         "distinct_nontrivial": stats["block_instances"] + stats["sample_save3"],
